@@ -17,6 +17,9 @@ import (
 	"verif/harness/run"
 )
 
+// Times are CPU times of the calling thread (run.CPUTimed), so that a busy
+// machine does not inflate them.
+//
 // costBound: generous absolute bounds for inputs and results of at most
 // ~10^4 elements: at least 10^4 times the normal cost of such a case.
 const (
@@ -33,9 +36,8 @@ type measured struct {
 func measure(text string, data any) measured {
 	var m0, m1 runtime.MemStats
 	runtime.ReadMemStats(&m0)
-	t0 := time.Now()
-	o := run.Search(text, data)
-	el := time.Since(t0)
+	var o run.Outcome
+	el := run.CPUTimed(func() { o = run.Search(text, data) })
 	runtime.ReadMemStats(&m1)
 	return measured{out: o, elapsed: el, alloc: m1.TotalAlloc - m0.TotalAlloc}
 }
@@ -258,9 +260,8 @@ func bestOf(k int, text string, node run.Node) (time.Duration, string) {
 	best := time.Duration(1 << 62)
 	for i := 0; i < k; i++ {
 		data := node.Build()
-		t0 := time.Now()
-		o := run.Search(text, data)
-		el := time.Since(t0)
+		var o run.Outcome
+		el := run.CPUTimed(func() { o = run.Search(text, data) })
 		if o.Panic != "" {
 			return 0, "panic: " + o.Panic
 		}
